@@ -4,6 +4,10 @@ package openapiv3
 
 // Contracts checked by /verif/goavc (comment-only file, built only with -tags verif).
 
+// (same definition as in package openapi, where MustGenerate is proved to compute it)
+//@ macro genFlag(meta, k) = inMap(meta, k) && len(meta[k]) >= 1
+//@ macro mustGen(meta) = !((genFlag(meta, "openapi:generate") && meta["openapi:generate"][len(meta["openapi:generate"]) - 1] == "false") || (!genFlag(meta, "openapi:generate") && genFlag(meta, "swagger:generate") && meta["swagger:generate"][len(meta["swagger:generate"]) - 1] == "false"))
+
 // The validation tail of schemafy: the keywords of the OpenAPI 3 schema mirror the design's validation, and
 // a length bound lands on the keyword that applies to the kind of value. Everything before the tail (type
 // dispatch, references, examples) is not specified here; user types return a reference early.
@@ -22,6 +26,17 @@ package openapiv3
 //@   ensures* length.array: !early && val != nil && isArray ==> (val.MinLength != nil ==> result.MinItems == val.MinLength) && (val.MaxLength != nil ==> result.MaxItems == val.MaxLength)
 //@   ensures* length.string: !early && val != nil && !isArray && !isMap ==> (val.MinLength != nil ==> result.MinLength == val.MinLength) && (val.MaxLength != nil ==> result.MaxLength == val.MaxLength)
 //@   ensures* length.map.applicable: !early && val != nil && isMap ==> result.MinLength == nil && result.MaxLength == nil
+//   -- the required list: each required name of the design is appended, in order, unless it names an attribute
+//   -- excluded from generation (Find ASSUMED to be a function of the attribute and the name; its frame is proved in expr)
+//@   locals s
+//@   callspec (*AttributeExpr).Find params a name
+//@       ensures result == ptr(*expr.AttributeExpr, findSpec(a, name)) && result <= alloc() && result >= 0
+//@       modifies nothing
+//@   let cur = ranged(5)[rangeindex#5]
+//@   let found = ptr(*expr.AttributeExpr, findSpec(attr, cur))
+//@   let excluded = found != nil && !prev(5, mustGen(now(found.Meta)))
+//@   loop 5 invariant* all.required.visited: val != nil && ranged(5) == val.Required && s != nil
+//@   loop 5 step* required.filtered: len(s.Required) == prev(5, len(s.Required)) + ite(excluded, 0, 1) && (!excluded ==> s.Required[len(s.Required) - 1] == cur) && (forall k int :: 0 <= k && k < prev(5, len(s.Required)) ==> s.Required[k] == prev(5, s.Required[k]))
 //@   modifies all
 //@   preserves fieldsOf(expr.AttributeExpr), fieldsOf(expr.ValidationExpr)
 //@   loop 1 modifies elems(string)
@@ -29,5 +44,3 @@ package openapiv3
 //@   loop 3 modifies elems(string)
 //@   loop 4 modifies elems(string)
 //@   loop 5 modifies elems(string)
-//@   loop 6 modifies elems(string)
-//@   loop 7 modifies elems(string)
